@@ -231,8 +231,14 @@ func (b *bloomcache) hasCached(k cid.Cid) (has bool, ok bool) {
 		// in case of invalid key is forwarded deeper
 		return false, false
 	}
+	// Load the filter before the flag. Rebuild clears the flag before it swaps
+	// in the empty filter and sets it again only once that filter is fully
+	// populated, so a filter loaded first and found active afterwards is never
+	// a partially populated one. (Flag first, filter second lets a Rebuild slip
+	// in between and hands this reader the new, still empty filter.)
+	bl := b.bloom.Load()
 	if b.BloomActive() {
-		blr := b.bloom.Load().HasTS(k.Hash())
+		blr := bl.HasTS(k.Hash())
 		if !blr { // not contained in bloom is only conclusive answer bloom gives
 			b.hits.Inc()
 			return false, true
